@@ -10,6 +10,7 @@ import (
 
 func init() {
 	pbt.Register("C13", "ghost", RunGhost)
+	pbt.Register("C11", "ghost", RunGhost)
 }
 
 func TestC13Ghost(t *testing.T) {
@@ -35,5 +36,27 @@ func TestC13Ghost(t *testing.T) {
 		}
 		pbt.Count("C13", "ghost_datagrams", int64(st.GhostsSent))
 		pbt.Check(rt, "C13", "ghost", c, st.AliveSeen && st.GhostsSent > 0, labels, func() error { return err })
+	})
+}
+
+// TestC11Ghost runs the same scenario for C11's clause "once the hostile connection has ended, everything tied to it
+// (sessions, UDP registrations) is released": the peer simply goes away (connection closed, or TEARDOWN) and datagrams
+// keep arriving from the ports it had negotiated.
+func TestC11Ghost(t *testing.T) {
+	rapid.Check(t, func(rt *rapid.T) {
+		c := GhostCase{
+			Role:   rapid.SampledFrom([]string{"reader", "reader-back", "reader-back", "publisher"}).Draw(rt, "role"),
+			End:    rapid.SampledFrom([]string{"timeout", "timeout", "teardown"}).Draw(rt, "end"),
+			Before: rapid.IntRange(1, 4).Draw(rt, "before"),
+		}
+		n := rapid.IntRange(1, 6).Draw(rt, "nghosts")
+		for i := 0; i < n; i++ {
+			c.Ghosts = append(c.Ghosts, rapid.SampledFrom([]string{"rtp", "rtp", "junk", "rtcp", "rtp-other-pt"}).Draw(rt, "ghost"))
+		}
+		st, err := pbt.SafeJ("C11", "ghost", runGhost, c)
+		if st == nil {
+			st = &ghostStats{}
+		}
+		pbt.Check(rt, "C11", "ghost", c, st.AliveSeen && st.GhostsSent > 0, []string{"ghost-role:" + c.Role, "ghost-end:" + c.End}, func() error { return err })
 	})
 }
